@@ -9,8 +9,9 @@ Part B  crash points: single-process fault injection at every file operation of 
         and a later complete population must leave no torn file behind.
 Part C  cache states an earlier process can leave (only bookkeeping files, garbage timestamp, left-over temp file ...):
         load_schema_version('8.3.0') must succeed.
-Part D  CacheLock: two overlapping holders (nested, two threads, two processes) must not both be inside; the second gives
-        up with CacheException after its timeout; a refresh inside the interval raises CacheException (skipped);
+Part D  CacheLock: two overlapping holders (nested, two threads, two processes; two processes that SPELL the one directory
+        differently - trailing separator, relative, '..', doubled slash, symbolic link - in every ordered pair) must not both be
+        inside; the second gives up with CacheException after its timeout; a refresh inside the interval raises CacheException (skipped);
         a torn/garbage last_update.txt must not crash.
 
 Part E  the DEFAULT cache directory: child processes with a private HOME (rt/c19_home.py) bring ~/.hedtools/hed_cache/ into the
@@ -468,6 +469,114 @@ def part_states(w):
     return n
 
 
+LOCK_SPELLINGS = ("plain", "trailing slash", "relative", "relative with ./ and slash", "dot-dot", "doubled slash", "symlink",
+                  "symlink with slash")
+
+
+def lock_spell(d, name, base):
+    """an equivalent spelling of the existing directory d (POSIX); the relative ones are relative to base (the working directory of
+    both holders); the symlink ones name the link <d>_link -> d"""
+    d = d.rstrip("/")
+    rel = os.path.relpath(d, base)
+    return {"plain": d, "trailing slash": d + "/", "relative": rel, "relative with ./ and slash": "./" + rel + "/",
+            "dot-dot": d + "/../" + os.path.basename(d), "doubled slash": os.path.dirname(d) + "//" + os.path.basename(d),
+            "symlink": d + "_link", "symlink with slash": d + "_link/"}[name]
+
+
+def lock_spelling_probe(w, env, case):
+    """one directory, two holders that SPELL it differently: for every spelling s1 a forked process holds CacheLock(s1(D)) on a
+    directory D of its own; meanwhile this process asks for CacheLock(s2(D)) with every spelling s2 (one thread per ordered pair, so
+    that the one-second timeouts run side by side).  Exclusion and the give-up error must not depend on the spelling; after the
+    holder left, another spelling gets the lock."""
+    from hed.schema.hed_cache_lock import CacheLock, CacheException
+    base = os.path.realpath(env.base)
+    old_cwd = os.getcwd()
+    holders = []
+    results = {}
+    try:
+        os.chdir(base)
+        for s1 in LOCK_SPELLINGS:
+            d = os.path.realpath(env.new_cache())
+            os.symlink(d, d + "_link")
+            r_in, w_in = os.pipe()
+            r_go, w_go = os.pipe()
+            sys.stdout.flush()
+            pid = os.fork()
+            if pid == 0:
+                code = 0
+                try:
+                    with CacheLock(lock_spell(d, s1, base), write_time=False):
+                        os.write(w_in, b"1")
+                        os.read(r_go, 1)
+                except BaseException:
+                    code = 7
+                    try:
+                        os.write(w_in, b"0")
+                    except OSError:
+                        pass
+                os._exit(code)
+            holders.append({"s1": s1, "dir": d, "pid": pid, "fds": (r_in, w_in, r_go, w_go)})
+        for h in holders:
+            h["inside"] = os.read(h["fds"][0], 1) == b"1"
+
+        def ask(h, s2):
+            res = {}
+            t0 = time.time()
+            try:
+                with CacheLock(lock_spell(h["dir"], s2, base), write_time=False):
+                    res["asker"] = "entered"
+            except CacheException:
+                res["asker"] = "CacheException"
+            except BaseException as e:
+                res["asker"] = type(e).__name__ + ": " + str(e)[:100]
+            res["asker_waited_s"] = round(time.time() - t0, 2)
+            results[(h["s1"], s2)] = res
+
+        threads = [threading.Thread(target=ask, args=(h, s2)) for h in holders for s2 in LOCK_SPELLINGS]
+        for th in threads:
+            th.start()
+        for th in threads:
+            th.join(30)
+        for h in holders:
+            os.write(h["fds"][3], b"1")
+            _, status = os.waitpid(h["pid"], 0)
+            h["exit"] = os.waitstatus_to_exitcode(status)
+            for fd in h["fds"]:
+                os.close(fd)
+        for i, h in enumerate(holders):
+            for s2 in LOCK_SPELLINGS:
+                inp = {"kind": "lock", "probe": "two processes, one directory spelled differently", "holder_spelling": h["s1"],
+                       "asker_spelling": s2, "holder_path": lock_spell(h["dir"], h["s1"], base).replace(base, "<base>"),
+                       "asker_path": lock_spell(h["dir"], s2, base).replace(base, "<base>")}
+                case(inp)
+                res = dict(results.get((h["s1"], s2), {"asker": "no answer"}), holder_inside=h["inside"], holder_exit=h["exit"])
+                if h["inside"] and res["asker"] == "entered":
+                    w.fail("C19.lock.D14_two_holders_overlap", inp, res, {"asker": "CacheException"})
+                else:
+                    w.check(h["inside"] and h["exit"] == 0 and res["asker"] == "CacheException" and res["asker_waited_s"] < 5,
+                            "C19.lock.second_holder_gives_up_with_CacheException", inp, res,
+                            {"holder_inside": True, "asker": "CacheException within its timeout"})
+            # the holder has left: the directory in another spelling can be locked again
+            s3 = LOCK_SPELLINGS[(i + 1) % len(LOCK_SPELLINGS)]
+            inp = {"kind": "lock", "probe": "released, then asked in another spelling", "holder_spelling": h["s1"], "asker_spelling": s3}
+            case(inp)
+            try:
+                with CacheLock(lock_spell(h["dir"], s3, base), write_time=False):
+                    r = "entered"
+            except BaseException as e:
+                r = type(e).__name__
+            w.check(r == "entered", "C19.lock.released_on_exit", inp, r, "entered")
+    finally:
+        os.chdir(old_cwd)
+        for h in holders:
+            if "exit" not in h:
+                try:
+                    os.kill(h["pid"], 9)
+                    os.waitpid(h["pid"], 0)
+                except OSError:
+                    pass
+
+
 def part_lock(w):
     import hed.schema.hed_cache as hc
     from hed.schema.hed_cache_lock import CacheLock, CacheException
@@ -593,6 +702,8 @@ def part_lock(w):
         else:
             w.check(res["child_inside"] and res["parent"] == "CacheException", "C19.lock.second_holder_gives_up_with_CacheException",
                     inp, res, {"parent": "CacheException"})
+        # ---- two processes that spell the one directory differently (every ordered pair of spellings)
+        lock_spelling_probe(w, env, case)
         # ---- population happens under the lock: a holder blocks cache_local_versions (returns -1, copies nothing)
         d = env.new_cache()
         inp = {"kind": "lock", "probe": "cache_local_versions while another holder is inside"}
@@ -762,6 +873,17 @@ def home_jobs(quick):
             add([pop(k, "before", k)], via="arg", spelling=sp)
     if not quick:
         add([pop(0, "before", 1)], via="arg", spelling="no trailing slash")
+    # ... through a symbolic link to the cache directory: as folder argument, and with HED_CACHE_DIRECTORY set to one spelling
+    # while the folder argument is another one (link / real path, both ways round)
+    for k in ((3,) if quick else (1, 3, 7, n - 1)):
+        add([pop(k, "before", k)], via="arg", spelling="symlink")
+        add([pop(k, "before", k + 1)], via="arg", spelling="symlink relative" if k % 2 else "symlink with slash")
+        add([pop(k, "before", k + 2)], via="set_arg", spelling="symlink", arg_spelling="as computed")
+        add([pop(k, "before", k)], via="set_arg", spelling="symlink with slash", arg_spelling="no trailing slash")
+        add([pop(k, "before", k + 1)], via="set_arg", spelling="no trailing slash", arg_spelling="symlink")
+        if not quick:
+            add([pop(k, "truncated", k)], via="set_arg", spelling="symlink relative", arg_spelling="relative")
+            add([pop(k, "before", k)], via="set_arg", spelling="dot-dot", arg_spelling="doubled slash")
     for j in jobs:
         if j.get("lock_held"):
             j["timestamp"] = "absent"
@@ -852,7 +974,7 @@ def run(w: Workload):
               "and of the version whose file was hit; + 11 hand-made left-behind states; + lock probes (nested / threads / "
               "processes / refresh interval x 4 / 9 garbage timestamps x 2 entry points)")
     hjobs = home_jobs(w.quick)
-    hbase, hkids = home_children(hjobs, 8 if w.quick else 12, w.seed)      # run alongside the other parts
+    hbase, hkids = home_children(hjobs, 10 if w.quick else 12, w.seed)      # run alongside the other parts
     n_pop = part_population(w)
     n_states = part_states(w)
     n_lock = part_lock(w)
@@ -888,7 +1010,8 @@ def run(w: Workload):
     w.part("default cache directory under a private HOME: killed population / refresh, then every bundled version by number",
            cases=n_home, bound="population killed before each copy (0..n files copied), inside / after chosen copies; refresh killed at "
            "chosen copies; timestamp absent/recent/old/garbage; lock held by a live process; directory named not at all / "
-           "set_cache_directory(spelling) / folder argument(spelling); %d jobs, each loading all bundled versions in rotating "
+           "set_cache_directory(spelling) / folder argument(spelling) / both in two different spellings, the spellings including a "
+           "symbolic link to the cache directory (xml_folder=<link>; HED_CACHE_DIRECTORY=<link> with xml_folder=<real path>); %d jobs, each loading all bundled versions in rotating "
            "forms + lists + merged libraries" % len(hjobs), exhaustive=False)
     w.part("un-interrupted population", cases=n_pop, bound="4 entry points on an empty / missing temp cache directory", exhaustive=True)
     w.part("loader concurrent with a populating lock holder paused at one file operation (threads in one process)",
@@ -896,7 +1019,11 @@ def run(w: Workload):
     w.part("interrupted population", cases=n_crash,
            bound="every file operation of the population x 3 interruption modes x %d listing orders" % len(orders), exhaustive=True)
     w.part("left-behind cache states", cases=n_states, bound="11 hand-made states", exhaustive=False)
-    w.part("CacheLock probes", cases=n_lock, bound="nested/threads/processes, 4 interval settings, 9 timestamp contents x 2 entry points",
+    w.part("CacheLock probes", cases=n_lock, bound="nested/threads/processes, 4 interval settings, 9 timestamp contents x 2 entry points; "
+           "+ one directory spelled differently by the two holders: a forked process holds CacheLock(s1) while this process asks "
+           "with s2, for all %d x %d ordered pairs of spellings %s (exclusion and the CacheException after the timeout must not "
+           "depend on the spelling), and after the holder left the next spelling gets the lock"
+           % (len(LOCK_SPELLINGS), len(LOCK_SPELLINGS), list(LOCK_SPELLINGS)),
            exhaustive=False)
     w.not_covered += [
         "true multi-process schedules: only ONE loader against ONE populating lock holder paused at each file operation is explored "
@@ -948,7 +1075,7 @@ def replay(w: Workload, case: dict):
     {"populate": part_population, "state": part_states, "lock": part_lock}[kind](sub)
     w.evaluations = sub.evaluations
     for f in sub.failures:
-        if f["clause"] == case["clause"] and all(f["input"].get(k) == inp.get(k) for k in ("how", "state", "probe", "content", "api", "time_threshold", "write_time")):
+        if f["clause"] == case["clause"] and all(f["input"].get(k) == inp.get(k) for k in ("how", "state", "probe", "content", "api", "time_threshold", "write_time", "holder_spelling", "asker_spelling")):
             w.fail(f["clause"], f["input"], f["observed"], f["expected"])
 
 
